@@ -475,7 +475,7 @@ func bigCase(r *rng, o *out, univ []int) (string, bool) {
 		t = newMapT(func(a, b int) bool { return a/2 == b/2 })
 	}
 	o.tags["stream:big"] = true
-	nk := 130 + r.intn(200)
+	nk := 130 + r.intn(90)
 	setMany := func(p int) {
 		var xs []kv
 		for k := 0; k < nk; k++ {
